@@ -941,3 +941,120 @@ def check_C13(ctx):
     spread_samples(ctx, cs, res)
 
 CHECKS.update({'C05': check_C05, 'C20': check_C20, 'C07': check_C07, 'C11': check_C11, 'C13': check_C13})
+
+# ----------------------------------------------------------------------------
+def check_C12(ctx):
+    import subprocess as sp
+    cs = CaseSet()
+    eval_texts(ctx, cs, ctx.n(120, 1500), 1, ctx.n(40, 500), ctx.n(10, 100))
+    fam_leaf_exh(cs, ctx.rng, stride=ctx.n(97, 11))
+    fail_compounds(ctx, cs, ctx.n(100, 2000))
+    cases = [c for c in cs.cases if len(c.line) < 3000]
+    res = ctx.run(cases, sides=('model', 'impl'))
+    ctx.compare(cases, res, ['verdict', 'err', 'dbg'])
+    inf = os.path.join(ctx.work, 'conc.in')
+    with open(inf, 'w') as f:
+        for c in cases:
+            f.write(c.line + '\n')
+    configs = [(2, 20, 1), (8, 25, 4), (32, 10, 16)] if ctx.quick else \
+              [(g, r, p) for g in (2, 8, 32) for r in (5, 40, 200) for p in (1, 4, 16)]
+    races = 0
+    runs = []
+    for (g, r, p) in configs:
+        outf = os.path.join(ctx.work, 'conc.%d.%d.%d.out' % (g, r, p))
+        env = dict(os.environ, GORACE='halt_on_error=0 exitcode=66')
+        pr = sp.run([os.path.join(VERIF, 'driver', 'driver-race'), 'conc', inf, outf, str(g), str(r), str(p)],
+                    stdout=sp.PIPE, stderr=sp.PIPE, env=env, timeout=3000)
+        err = pr.stderr.decode('utf-8', 'replace')
+        nr = err.count('WARNING: DATA RACE')
+        races += nr
+        runs.append({'goroutines': g, 'rounds': r, 'gomaxprocs': p, 'rc': pr.returncode, 'race_reports': nr})
+        ctx.evaluations += len(cases) * r
+        if nr or pr.returncode not in (0,):
+            ctx.violation('race detector / process failure with %d goroutines, %d rounds, GOMAXPROCS=%d (rc %d): %s' % (g, r, p, pr.returncode, err[:3000]), [],
+                          config={'goroutines': g, 'rounds': r, 'gomaxprocs': p, 'cases_file_seed': ctx.seed})
+            continue
+        got = {}
+        for line in open(outf, errors='replace'):
+            if line.strip():
+                cid, d = parse_obs_line(line)
+                got[cid] = d
+        for c in cases:
+            d = got.get(c.id)
+            seq = res.impl.get(c.id)
+            if d is None or seq is None:
+                continue
+            if (d.get('verdict'), d.get('err'), d.get('dbg')) != (seq.get('verdict'), seq.get('err'), seq.get('dbg')) or d.get('stable') != '1':
+                ctx.violation('a call on its own goroutine returned %s (stable=%s); alone it returns %s/%s/%s [G=%d R=%d P=%d]' % (
+                    (d.get('verdict'), d.get('err'), d.get('dbg')), d.get('stable'), seq.get('verdict'), seq.get('err'), seq.get('dbg'), g, r, p), [c])
+    ctx.extra['concurrent_runs'] = runs
+    ctx.extra['not_provable_here'] = 'data-race freedom of the Go memory model, the generated code\'s sync.Once statics and the ANTLR runtime caches: sampled with the race detector; the theorem covers the model (no shared component) and SourceFacts certifies that the hand-written code has no package-level mutable state'
+    spread_samples(ctx, cs, res)
+
+CHECKS.update({'C12': check_C12})
+
+# ----------------------------------------------------------------------------
+ATTACHED = {0: '42', 1: 'true', 2: 'null', 3: '[1,"a"]', 4: '{"a":"x","b":1}', 5: '1.5', 6: None, 7: None, 8: None, 9: None,
+            10: '{}', 11: '[1,2]', 12: None, 13: '{"A":2}', 14: '"YWI="', 15: '9223372036854775807', 16: '1e+21', 17: '{}'}
+NERR_KEYS = ['attr_path', 'operation', 'object_path_operand', 'rule_operand', 'err', 'msg', 'a', 'b', 'k<&>', 'K', 'é', '', 'z"q', 'x\ny']
+NERR_TEXTS = ['boom', '', 'Operand not present', 'a "quoted" <text> & more', 'tab\there', 'nl\n', 'é x', 'ctl\x01\x08\x0c\x1f\x7f', 'slash/\\']
+
+def check_C19(ctx):
+    cs = CaseSet()
+    def aval_sx():
+        if ctx.rng.random() < 0.4:
+            t = ctx.rng.choice(NERR_TEXTS)
+            b = t.encode('utf-8')
+            if ctx.rng.random() < 0.1:
+                b += bytes([ctx.rng.choice([0xff, 0xc3, 0x80])])
+            return '(s %s)' % hx(b)
+        weights = [t for t in ATTACHED if ATTACHED[t] is not None] * 3 + [t for t in ATTACHED if ATTACHED[t] is None]
+        tag = ctx.rng.choice(weights)
+        enc = ATTACHED[tag]
+        return '(v %d %s)' % (tag, 'none' if enc is None else hx(enc))
+    for _ in range(ctx.n(1000, 30000)):
+        depth = ctx.rng.choice([1, 1, 2, 2, 3, 5, 10, 50] if not ctx.quick else [1, 1, 2, 2, 3, 5, 12])
+        cause = ctx.rng.choice(NERR_TEXTS)
+        if cause == '' and ctx.rng.random() < 0.8:
+            cause = 'e'
+        msgs = [ctx.rng.choice(NERR_TEXTS) for _ in range(depth)]
+        ops = []
+        for _ in range(ctx.rng.randint(1, ctx.n(12, 30))):
+            r = ctx.rng.random()
+            k = ctx.rng.randrange(depth) if ctx.rng.random() < 0.6 else depth - 1
+            if r < 0.45:
+                kvs = ' '.join('(%s %s)' % (hx(ctx.rng.choice(NERR_KEYS)), aval_sx()) for _ in range(ctx.rng.randint(0, 4)))
+                ops.append('(set %d %s)' % (k, kvs) if kvs else '(set %d)' % k)
+            elif r < 0.85:
+                ops.append('(error %d)' % k)
+            else:
+                ops.append('(orig %d)' % k)
+        if ctx.rng.random() < 0.5:
+            ops += ['(error %d)' % (depth - 1)] * 2
+        body = '%s (%s) (%s)' % (hx(cause), ' '.join(hx(m) for m in msgs), ' '.join(ops))
+        cs.simple('nerr', body, 'nerr', cause=cause, msgs=msgs, ops=ops)
+    res = ctx.run(cs)
+    ctx.compare(cs.cases, res, ['out'], nontrivial=lambda c, mo: True)
+    spec_violations(ctx, 'NestedError')
+    bad_oracle = 0
+    for c in cs.cases:
+        io = res.impl.get(c.id)
+        if not io:
+            continue
+        if io.get('oracle') == 'bad':
+            bad_oracle += 1
+            ctx.mismatches.append((c, 'json-oracle', 'bad', 'ok'))
+        outs = (io.get('out') or '').split(';')
+        if 'PANIC' in outs or 'oDIFF' in outs or 'sBAD' in outs:
+            ctx.violation('NestedError API misbehaved: %s' % io.get('out')[:200], [c])
+            continue
+        # idempotence, checked on the implementation itself: consecutive Error() calls on one layer agree
+        ops = c.meta['ops']
+        for i in range(len(ops) - 1):
+            if ops[i].startswith('(error') and ops[i] == ops[i + 1] and i + 1 < len(outs) and outs[i] != outs[i + 1]:
+                ctx.violation('Error() called twice in a row returned different texts', [c])
+                break
+    ctx.extra['oracle_misses'] = bad_oracle
+    spread_samples(ctx, cs, res)
+
+CHECKS.update({'C19': check_C19})
